@@ -7,6 +7,7 @@ import NmVerif.Simd.VertLemmas
 import NmVerif.Simd.OuterLemmas
 import NmVerif.Simd.BinaryLemmas
 import NmVerif.Simd.NdLemmas
+import NmVerif.Simd.AxisLemmas
 /-
   C12 — SIMD evaluation equals scalar evaluation for every size, shape and layout.
   Only property statements (+ non-vacuity examples, counterexamples of known findings) live here.
@@ -610,13 +611,89 @@ theorem simdReduceAxis_nonLastAxis_eq_fold (N : Nat) (hN : 0 < N) (packOp : List
     congr 1
     omega
 
-/- PARTIAL (not proved; kept as the full statement): for a well-formed row-major `a` of any rank, `axis < a.shape.length - 1`,
-   more than one output element, over a commutative monoid `(op, e)`:
-     simdReduceAxis N packOp op (some e) a axis = scalarReduceAxis op a axis
-   What is proved instead: `simdReduceAxis_nonLastAxis_eq_fold` above (the dispatcher on the n-d operand = column-wise fold of
-   the buffer rows `ρ·A … ρ·A+A−1`, via `simdReduceVertical_eq_loop` / `_eq_fold`); missing is only the identification of that
-   row-wise fold with the cell-wise `scalarReduceAxis` (mixed-radix decomposition of `ndindex (pre ++ 1 :: post)`).
-   The last-axis case is proved in full (`simdReduceAxis_lastAxis_eq_scalar`). -/
+/-- **n-d reduction over a non-last axis: `eval_reduction` = the scalar reference** `scalarReduceAxis` on the n-d operand,
+    cell by cell: the row-wise column fold of `simdReduceAxis_nonLastAxis_eq_fold` is, through the mixed-radix decomposition
+    of `ndindex (pre ++ 1 :: post)`, the left fold of `a[I, 0..A-1, J]` from its first element.  No re-association happens on
+    this path: only `e ⊕ x = x` is used (weaker than the commutative-monoid hypothesis of the last axis). -/
+theorem simdReduceAxis_nonLastAxis_eq_scalar (N : Nat) (hN : 0 < N) (packOp : List α → List α → List α)
+    (op : α → α → α) (e : α) (hid : ∀ x, op e x = x) (hp : LaneWise2 N packOp op)
+    (a : NDA α) (pre post : List Nat) (A : Nat) (hsh : a.shape = pre ++ A :: post) (hpost : post ≠ []) (hw : a.WF)
+    (hr : a.colMajor = false) (hposPre : Pos pre) (hposPost : Pos post) (hA : 0 < A) (hout : prod pre * prod post ≠ 1) :
+    simdReduceAxis N packOp op (some e) a (pre.length : Int) = scalarReduceAxis op a pre.length := by
+  obtain ⟨res, h1, h2, h3⟩ := simdReduceAxis_nonLastAxis_eq_fold N hN packOp op e hp a pre post A hsh hpost hw hr hA
+    (prod_pos hposPre) hout
+  have hlen : a.data.length = prod pre * A * prod post := by
+    have : a.data.length = prod a.shape := hw
+    rw [this, hsh, prod_mid]
+  rw [h1, scalarReduceAxis_cells op a pre post A hsh hr hposPre hposPost]
+  exact (axisCells_of_rowFold op e hid a.data res (prod pre) A (prod post) hA (prod_pos hposPost) hlen h2 h3).symm
+
+/-- **SIMD reduction over ANY axis = the scalar reference**, for every rank, every shape with positive extents, every
+    axis `0 ≤ axis < dim` written either way (`axis` or `axis − dim`), every lane count, operands of either layout, ops with
+    or without `identity()`; where the op has an identity `e` (the value the code pads / pre-fills / starts with),
+    `(op, e)` is a commutative monoid — "equal up to re-association of the reduction".  The buffer is the row-major
+    keepdims-shaped result (the same buffer serves `keepdims=false`, see `simdReduceAxisK_eq_scalar`). -/
+theorem simdReduceAxis_eq_scalar (N : Nat) (hN : 0 < N) (packOp : List α → List α → List α)
+    (op : α → α → α) (identity : Option α) (hm : ∀ e, identity = some e → IsCommMonoid op e)
+    (hp : LaneWise2 N packOp op) (a : NDA α) (hw : a.WF) (hs : Pos a.shape) (axis : Nat) (hlt : axis < a.shape.length)
+    (axisI : Int) (hax : axisI = (axis : Int) ∨ axisI = (axis : Int) - (a.shape.length : Int)) :
+    simdReduceAxis N packOp op identity a axisI = scalarReduceAxis op a axis := by
+  -- the written axis
+  have hnorm : simdReduceAxis N packOp op identity a axisI = simdReduceAxis N packOp op identity a (axis : Int) := by
+    rcases hax with h | h
+    · rw [h]
+    · rw [h]; exact simdReduceAxis_negative_axis N packOp op identity a axis hlt
+  rw [hnorm]
+  cases hc : a.colMajor with
+  | true => exact simdReduceAxis_fallback_eq_scalar N packOp op identity a axis hlt (Or.inl hc)
+  | false =>
+  cases hi : identity with
+  | none => exact simdReduceAxis_fallback_eq_scalar N packOp op none a axis hlt (Or.inr rfl)
+  | some e =>
+  have hme := hm e hi
+  obtain ⟨pre, A, post, hsh, hpl⟩ : ∃ pre A post, a.shape = pre ++ A :: post ∧ pre.length = axis :=
+    ⟨a.shape.take axis, a.shape[axis], a.shape.drop (axis + 1),
+     by rw [List.getElem_cons_drop, List.take_append_drop], by rw [List.length_take]; omega⟩
+  subst hpl
+  have hposPre : Pos pre := fun x hx => hs x (by rw [hsh]; simp [hx])
+  have hposPost : Pos post := fun x hx => hs x (by rw [hsh]; simp [hx])
+  have hA : 0 < A := hs A (by rw [hsh]; simp)
+  by_cases hout : prod pre * prod post = 1
+  · -- one output element
+    rw [simdReduceAxis_rowMajor N packOp op e a hc (pre.length : Int) pre.length hlt (Or.inl rfl)]
+    have hk : prod (keepShape a.shape pre.length) = 1 := by
+      unfold keepShape; rw [hsh, shape_set_mid, prod_mid]; simpa using hout
+    rw [if_pos hk, simdReduceAll_eq_fold N hN packOp op e hme hp a hw hc hs,
+        scalarReduceAxis_outSize1 op a pre post A hsh hw hc hposPre hposPost hA hout]
+  · by_cases hpost : post = []
+    · subst hpost
+      have hout' : prod pre ≠ 1 := by simpa [prod] using hout
+      exact simdReduceAxis_lastAxis_eq_scalar N hN packOp op e hme hp a pre A hsh hw hc hposPre hA hout'
+        (pre.length : Int) (Or.inr rfl)
+    · exact simdReduceAxis_nonLastAxis_eq_scalar N hN packOp op e hme.id_left hp a pre post A hsh hpost hw hc
+        hposPre hposPost hA hout
+
+/-- **keepdims both ways**: what `eval_reduction` feeds the enumerators for `keepdims=false`,
+    `insert_index(shape without axis, 1, axis)`, is the keepdims shape — the evaluator's loops do not depend on the flag -/
+theorem reduce_keepdims_normalised (shape : List Nat) (axis : Nat) (h : axis < shape.length) (keep : Bool) :
+    normOutShape (reduceOutShape shape axis keep) axis keep = keepShape shape axis :=
+  normOutShape_reduceOutShape shape axis h keep
+
+/-- … and the NumPy reference buffer does not depend on it either (operand of either layout) -/
+theorem scalarReduce_keepdims_same_buffer (op : α → α → α) (a : NDA α) (axis : Nat) (h : axis < a.shape.length) (keep : Bool) :
+    scalarReduceAxisK op a axis keep = scalarReduceAxis op a axis := scalarReduceAxisK_eq op a axis h keep
+
+/-- **SIMD reduction over any axis, `keepdims` on or off = NumPy `op.reduce(a, axis, keepdims)`** as the scalar evaluator
+    computes it: same shape (`reduceOutShape`), same row-major buffer; hypotheses as `simdReduceAxis_eq_scalar`. -/
+theorem simdReduceAxisK_eq_scalar (N : Nat) (hN : 0 < N) (packOp : List α → List α → List α)
+    (op : α → α → α) (identity : Option α) (hm : ∀ e, identity = some e → IsCommMonoid op e)
+    (hp : LaneWise2 N packOp op) (a : NDA α) (hw : a.WF) (hs : Pos a.shape) (axis : Nat) (hlt : axis < a.shape.length)
+    (axisI : Int) (hax : axisI = (axis : Int) ∨ axisI = (axis : Int) - (a.shape.length : Int)) (keep : Bool) :
+    simdReduceAxisK N packOp op identity a axisI keep
+      = (scalarReduceAxisK op a axis keep).map (fun b => (reduceOutShape a.shape axis keep, b)) := by
+  rw [simdReduceAxisK_eq N packOp op identity a axis hlt axisI hax keep,
+      simdReduceAxis_eq_scalar N hN packOp op identity hm hp a hw hs axis hlt axisI hax,
+      scalarReduceAxisK_eq op a axis hlt keep]
 
 /-! ## eval_outer: the enumerator, operands of any rank -/
 
@@ -689,5 +766,14 @@ example : simdReduceAll 2 (List.zipWith (· * ·)) (· * ·) (1 : Int) ⟨[2,2],
 example : simdReduceAxis 4 (List.zipWith (· - ·)) (· - ·) (none : Option Int) ⟨[2,3], false, [1,2,3,4,5,6]⟩ 0 = some [-3,-3,-3]
     ∧ simdReduceAxis 4 (List.zipWith (· + ·)) (· + ·) (some (0 : Int)) ⟨[2,3], false, [1,2,3,4,5,6]⟩ (-2) = some [5,7,9] := by decide
 example : simdReduceAll 4 (List.zipWith (· + ·)) (· + ·) (0 : Int) ⟨[2,5], false, [1,2,3,4,5,6,7,8,9,10]⟩ = some 55 := by decide
+example : simdReduceAxis 4 (List.zipWith (· + ·)) (· + ·) (some (0 : Int)) ⟨[2,3,2], false, [1,2,3,4,5,6,7,8,9,10,11,12]⟩ 1 = some [9,12,27,30]
+    ∧ scalarReduceAxis (· + ·) (⟨[2,3,2], false, [1,2,3,4,5,6,7,8,9,10,11,12]⟩ : NDA Int) 1 = some [9,12,27,30]
+    ∧ (⟨[2,3,2], false, [1,2,3,4,5,6,7,8,9,10,11,12]⟩ : NDA Int).WF ∧ Pos [2,3,2] :=
+  ⟨by decide, by decide, by simp [NDA.WF, prod], by decide⟩
+example : simdReduceAxisK 2 (List.zipWith (· * ·)) (· * ·) (some (1 : Int)) ⟨[2,3,2], false, [1,2,3,4,5,6,7,8,9,10,11,12]⟩ (-3) false
+      = some ([3,2], [7,16,27,40,55,72])
+    ∧ scalarReduceAxisK (· * ·) (⟨[2,3,2], false, [1,2,3,4,5,6,7,8,9,10,11,12]⟩ : NDA Int) 0 false = some [7,16,27,40,55,72]
+    ∧ reduceOutShape [2,3,2] 0 false = [3,2] ∧ normOutShape [3,2] 0 false = [1,3,2] := by decide
+example : axisCell (· + ·) ([1,2,3,4,5,6,7,8,9,10,11,12] : List Int) 3 2 3 = some 30 := by decide
 
 end NmVerif.Props.C12
